@@ -197,6 +197,19 @@ def run(m: Model, r: Report, tier: str) -> None:
             f"must delegate to {iss.name}(request.service_id), the predicate the model generation uses", loc=isr.loc)
     from sa.uds_rules import parse_dynamic_total
     parse_dynamic_total(m, r, "R3")
+    # which services count as sub-function services: the predicate derives it from the codec classes; ISO sub-function services for which gallia has no codec class
+    # fall through its `except` and count as plain services unless the predicate names them itself
+    from sa.codec import Registry as _Reg13
+    from sa.oracles import iso14229
+    reg13 = _Reg13(m)
+    sids = m.enum_members(m.require_class("gallia.services.uds.core.constants.UDSIsoServices")) or {}
+    with_codec = {p_.service_id for p_ in reg13.pairs if p_.service_id is not None}
+    no_codec = sorted(nm for nm in iso14229.SUBFUNCTION_SERVICES if nm in sids and sids[nm] not in with_codec)
+    named = {x.attr for x in ast.walk(iss.node) if isinstance(x, ast.Attribute) and ast.unparse(x.value) == "UDSIsoServices"}
+    unknown_to_pred = [nm for nm in no_codec if nm not in named]
+    r.check(not unknown_to_pred, "R3", f"{iss.qualname}#iso-sub-function-services", f"{unknown_to_pred} are sub-function services in ISO 14229-1 but have no codec class, so the predicate "
+            "answers False for them: the model stores them without sub-functions and an unknown sub-function gets incorrectMessageLengthOrInvalidFormat (0x13) instead of "
+            "subFunctionNotSupported (0x12)", loc=iss.loc)
     f2 = m.require_function(f"{SRV}.UDSServer.default_response_if_missing_sub_function")
     t2 = decision_table(f2)
     r.check(has_row(t2, ["self._is_sub_function_request(request) and len(request.pdu) < 2"], [], "incorrectMessageLengthOrInvalidFormat") and
